@@ -249,13 +249,57 @@ pub fn strategy() -> impl Strategy<Value=Pair> {
   ]
 }
 
+/// Small fixed batteries of pairs per type family; `battery(first)` runs them all in one fresh process, starting with family
+/// `first` - state that a checker keeps per process (and that depends on which type or checker came first) shows up as a
+/// battery that fails for one starting point only.
+pub const N_FAMILIES: usize = 8;
+fn family(i: usize) -> Vec<Pair> {
+  let mut v = vec![];
+  for c in CKS {
+    match i % N_FAMILIES {
+      0 => { for a in [Ok(()), Err(())] { for b in [Ok(()), Err(())] { v.push(Pair::ZBoth(c, a, b)); } } }
+      1 => { for a in [Ok(0u8), Ok(1), Err(())] { for b in [Ok(0u8), Ok(1), Err(())] { v.push(Pair::ZErr(c, a, b)); } } }
+      2 => { for a in [Ok(()), Err(0u8), Err(1)] { for b in [Ok(()), Err(0u8), Err(1)] { v.push(Pair::ZOk(c, a, b)); } } }
+      3 => { for a in [Ok(0u8), Ok(1), Err(0), Err(1)] { for b in [Ok(0u8), Ok(1), Err(0), Err(1)] { v.push(Pair::Small(c, a, b)); } } }
+      4 => { for a in [Ok("a".to_string()), Err("a".to_string()), Err("b".to_string())] { for b in [Ok("a".to_string()), Ok("b".to_string()), Err("a".to_string())] { v.push(Pair::Text(c, a.clone(), b.clone())); } } }
+      5 => { for a in [Ok(Unit0), Err("a".to_string())] { for b in [Ok(Unit0), Err("a".to_string()), Err("b".to_string())] { v.push(Pair::ZNamedOk(c, a.clone(), b.clone())); } } }
+      6 => { for a in [Ok(Var::A(0)), Ok(Var::B(0)), Err(Var::A(1))] { for b in [Ok(Var::B(0)), Ok(Var::A(1)), Err(Var::B(1)), Err(Var::A(0))] { v.push(Pair::VarP(c, a, b)); } } }
+      _ => { for a in 0u8..4 { for b in 0u8..4 { v.push(Pair::Misc(c, a * 2 + 1, a, b)); } } }
+    }
+  }
+  v
+}
+
+pub fn battery(first: usize) -> CheckResult {
+  let mut stats = Stats::dummy();
+  for k in 0..N_FAMILIES {
+    for p in family((first + k) % N_FAMILIES) {
+      check(&p, &mut stats).map_err(|f| Failure::new(format!("in a fresh process that checks type family #{} first, then the others in order: {:?}: {}", first % N_FAMILIES, p, f.msg)))?;
+    }
+  }
+  Ok(())
+}
+
 pub fn replay(path: &Path) -> Result<CheckResult, String> {
+  if driver::replay_label(path).map(|x| x.1 == "battery").unwrap_or(false) {
+    let (_, _, first): (_, _, usize) = driver::load_replay(path)?;
+    return Ok(run_battery_process(first));
+  }
   let (_, _, p): (_, _, Pair) = driver::load_replay(path)?;
   Ok(check(&p, &mut Stats::dummy()))
 }
 
+/// Runs `battery(first)` in a freshly spawned process.
+fn run_battery_process(first: usize) -> CheckResult {
+  let exe = std::env::current_exe().map_err(|e| Failure::new(format!("current_exe: {}", e)))?;
+  let out = std::process::Command::new(exe).arg("c12-battery").arg(first.to_string()).output().map_err(|e| Failure::new(format!("cannot spawn the battery process: {}", e)))?;
+  if out.status.success() { return Ok(()); }
+  let text = String::from_utf8_lossy(&out.stdout);
+  Err(Failure::new(text.lines().find(|l| l.starts_with("BATTERY-FAILED ")).map(|l| l["BATTERY-FAILED ".len()..].to_string()).unwrap_or_else(|| format!("battery process for first family {} ended with {:?}", first, out.status))))
+}
+
 pub fn run(tier: Tier, seed: u64) -> i32 {
-  let rule = "all five built-in checkers through both the OutputChecker methods and the object-safe OutputCheckerObj proxy: (1) exhaustive over all 8x8 pairs of Result<u8 in 0..4, u8 in 0..4> x 5 checkers; (1b) exhaustive over Result<u8,()>, Result<(),u8>, Result<(),()> (zero-sized payload types); (2) proptest-generated pairs of Result<String,String>, Result<(u8,String),Vec<u8>>, Result<String,UnitStruct>, Result<UnitStruct,String>, Result<[u8;24],u64>, payload types whose Debug text is terser / finer than their Eq, enums (and Cow<str>) equal across variants, PathBuf spellings, HashSet, i128, nested options, Rc, empty arrays, &'static str, char, wide tuples, and Option/tuple/Vec values for EqualsChecker; oracle: check(o2, stamp(o1)) is consistent iff the documented relation holds, plus reflexivity; non-trivial = pair on which the relation differs from plain equality (or an unequal pair for EqualsChecker); distinct by value hash";
+  let rule = "all five built-in checkers through both the OutputChecker methods and the object-safe OutputCheckerObj proxy: (1) exhaustive over all 8x8 pairs of Result<u8 in 0..4, u8 in 0..4> x 5 checkers; (1b) exhaustive over Result<u8,()>, Result<(),u8>, Result<(),()> (zero-sized payload types); (2) proptest-generated pairs of Result<String,String>, Result<(u8,String),Vec<u8>>, Result<String,UnitStruct>, Result<UnitStruct,String>, Result<[u8;24],u64>, payload types whose Debug text is terser / finer than their Eq, enums (and Cow<str>) equal across variants, PathBuf spellings, HashSet, i128, nested options, Rc, empty arrays, &'static str, char, wide tuples, and Option/tuple/Vec values for EqualsChecker; (3) eight fixed batteries over all type families, each run in a fresh process starting with a different family (state kept per process must not depend on which type was checked first); oracle: check(o2, stamp(o1)) is consistent iff the documented relation holds, plus reflexivity; non-trivial = pair on which the relation differs from plain equality (or an unequal pair for EqualsChecker); distinct by value hash";
   let mut report = Report::new("C12", tier, seed, "exploration", rule);
   let known = Known::load("C12");
   super::prologue(&mut report, &known);
@@ -296,6 +340,17 @@ pub fn run(tier: Tier, seed: u64) -> i32 {
   report.stats.evaluations += exhaustive;
   report.extra.insert("exhaustive_pairs".into(), json!(exhaustive));
   report.extra.insert("exhaustive_scope".into(), json!("all 64 ordered pairs of Result<u8 in 0..4, u8 in 0..4>, all 16+16+4 pairs of Result<u8 in 0..3,()>, Result<(),u8 in 0..3>, Result<(),()>, x 5 checkers x 2 routes"));
+  // Order dependence across a process: every starting family, each in a fresh process.
+  if report.violations.is_empty() {
+    for first in 0..N_FAMILIES {
+      report.stats.evaluations += (0..N_FAMILIES).map(|k| family(k).len() as u64).sum::<u64>();
+      if let Err(f) = run_battery_process(first) {
+        report.violation("battery", &json!(first), &f, &format!("battery starting with family {}", first));
+        break;
+      }
+    }
+    report.extra.insert("fresh_process_batteries".into(), json!(N_FAMILIES));
+  }
   let (shards, cases) = match tier { Tier::Quick => (16, 20000), Tier::Thorough => (16, 200000) };
   let cfg = SearchCfg { prop: "C12", label: "pair", seed, shards, cases_per_shard: cases, max_shrink_iters: 2000 };
   let (stats, found) = driver::search(&cfg, &known, strategy, |p, s| check(p, s), |p| format!("{:?}", p));
